@@ -79,7 +79,12 @@ def _items(rng):
                 while i > 0 and txt[i - 1] == "\\":
                     i -= 1  # never between a backslash and the quote it escapes
                 txt = txt[:i] + rng.choice(["\u00e9", "\u00dc", "\u00bd", "\u6f22\u5b57"]) + txt[i:]
-            items.append({"d": "ascii", "s": txt})
+            it_ = {"d": "ascii", "s": txt}
+            if all(c.isalnum() or c == " " for c in txt) and rng.random() < 0.5:
+                # the same string is first written as table-encoded .text (a table that maps every character to another byte is
+                # loaded): .ascii still emits the ASCII bytes
+                it_["after_text"] = True
+            items.append(it_)
         else:
             k = rng.random()
             ln = rng.choice(FILE_LENS) if k < 0.4 else rng.randint(0, 300) if k < 0.7 else rng.randint(0, 70000)
@@ -159,11 +164,15 @@ def _ascii_bytes(text: str) -> bytes:
     return (text.replace("\\'", "'") if _CONV[0] == "unescaped" else text).encode("ascii", errors="ignore")
 
 
+def _after_text(item) -> bool:
+    return bool(item.get("after_text")) and item["s"].isascii() and all(c.isalnum() or c == " " for c in item["s"])
+
+
 def _size(item) -> int:
     if item["d"] in WIDTH:
         return WIDTH[item["d"]] * len(item["vals"])
     if item["d"] == "ascii":
-        return len(_ascii_bytes(item["s"]))
+        return len(_ascii_bytes(item["s"])) * (2 if _after_text(item) else 1)
     return len(driver.file_bytes(item["spec"]))
 
 
@@ -325,6 +334,10 @@ def _run_case(case) -> Outcome:
     src += [f"*=0x{org:06x}", "lb_bk:"]
     expected = bytearray()
     files = {}
+    tchars = sorted({c for it in items if it["d"] == "ascii" and _after_text(it) for c in it["s"]})
+    if tchars:
+        files["t7.tbl"] = "".join(f"{ord(c) ^ 0x80:02X}={c}\n" for c in tchars)
+        src.insert(0, ".table 't7.tbl'")
     labels = [f"rom:{rom}"]
     nontrivial = False
     a = org
@@ -349,6 +362,10 @@ def _run_case(case) -> Outcome:
                     labels.append("forward-ref")
             src.append(f".{kind} " + ", ".join(texts))
         elif kind == "ascii":
+            if _after_text(it):
+                src.append(f".text '{it['s']}'")
+                expected += bytes(ord(c) ^ 0x80 for c in it["s"])
+                labels.append("ascii-after-text")
             src.append(f".ascii '{it['s']}'")
             expected += _ascii_bytes(it["s"])
             if "\\'" in it["s"]:
